@@ -22,7 +22,9 @@ type ParserData struct {
 	}
 	loopBlockDepth []int // 每层loop开始时的blockDepth，用于break/continue前关闭循环体内已打开的语句块
 	blockDepth     int   // 当前已生成 block.push 而尚未生成 block.pop 的层数
-	loopLayer      int   // 当前loop层数
+	loopFstrDepth  []int // 同上，针对字符串模板内的语句块(fstr.block)
+	fstrDepth      int
+	loopLayer      int // 当前loop层数
 	codeStack      []struct {
 		code    []ByteCode
 		index   int
@@ -49,6 +51,7 @@ func (e *ParserData) LoopBegin() {
 		breakIndex    int
 	}{continueIndex: len(e.continueStack), breakIndex: len(e.breakStack)})
 	e.loopBlockDepth = append(e.loopBlockDepth, e.blockDepth)
+	e.loopFstrDepth = append(e.loopFstrDepth, e.fstrDepth)
 }
 
 func (e *ParserData) LoopEnd() {
@@ -58,6 +61,7 @@ func (e *ParserData) LoopEnd() {
 	e.breakStack = e.breakStack[:info.breakIndex]
 	e.loopInfo = e.loopInfo[:len(e.loopInfo)-1]
 	e.loopBlockDepth = e.loopBlockDepth[:len(e.loopBlockDepth)-1]
+	e.loopFstrDepth = e.loopFstrDepth[:len(e.loopFstrDepth)-1]
 }
 
 // leaveBlocksInLoop 在 break/continue 跳转之前，关闭当前循环体内已经打开的语句块(如 if)，
@@ -68,6 +72,9 @@ func (e *ParserData) leaveBlocksInLoop() {
 	}
 	for i := e.loopBlockDepth[len(e.loopBlockDepth)-1]; i < e.blockDepth; i++ {
 		e.WriteCode(typeBlockPop, nil)
+	}
+	for i := e.loopFstrDepth[len(e.loopFstrDepth)-1]; i < e.fstrDepth; i++ {
+		e.WriteCode(typeFStringBlockPop, nil)
 	}
 }
 
@@ -113,6 +120,10 @@ func (e *ParserData) AddOp(operator CodeType) {
 		e.blockDepth++
 	case typeBlockPop:
 		e.blockDepth--
+	case typeFStringBlockPush:
+		e.fstrDepth++
+	case typeFStringBlockPop:
+		e.fstrDepth--
 	}
 	e.WriteCode(operator, val)
 }
